@@ -51,7 +51,6 @@ SUBST = ['A', 'B', 'C', 'D']
 _CLS = {'UnitLength': L, 'UnitMass': M, 'UnitTime': T, 'UnitCurrent': I, 'UnitTemperature': TH,
         'UnitLuminousIntensity': J, 'UnitSubstance': N}
 RTOL = 1e-10
-RATES_INT_KEY = 'rates:inplace-add-integer-dtype'
 
 
 def _dadd(a, b, k=1):
@@ -1425,23 +1424,13 @@ class C10(Property):
         variables = {x: _real(conf['c0'][x]) for x in sy['subst']}
         variables['not_a_key'] = 1.0
         before = _snap(variables)
-        typed_here = any(q.get('mt') for q in list(conf['ks']) + list(conf['c0'].values()))
-        rates = None
         try:
             rates = rsys.rates(variables)
             for r in rx:
                 r.rate(variables)
                 r.rate_expr()(variables, reaction=r)
         except Exception as e:
-            # finding 7 (notes/C10.md): the in-place `result *= variables[k] ** v` (MassAction.active_conc_prod) and
-            # `result[k] += v` (ReactionSystem.rates) cannot combine quantities of integer / object dtype with float ones
-            # (numpy UFuncTypeError).  Reported to the coordinator; listed as known finding -> KNOWN-FINDING line.
-            if exc_name(e) == 'UFuncTypeError' and typed_here:
-                if self._listed(RATES_INT_KEY):
-                    return '[rates in-place add] Reaction.rate / ReactionSystem.rates with integer / object dtype quantities raised %s' % str(e)[:150]
-                rates = None
-            else:
-                return 'evaluating the rate expressions on a variables dict raised %s: %s' % (exc_name(e), str(e)[:160])
+            return 'evaluating the rate expressions on a variables dict raised %s: %s' % (exc_name(e), str(e)[:160])
         v2 = dict(variables)
         b2 = _snap(v2)
         try:
@@ -1457,8 +1446,6 @@ class C10(Property):
         sc = self._scales(sy, conf)
         unit = float(_reg_si(conf['reg'], CONC) / _reg_si(conf['reg'], TIME))
         for x, w, scale in zip(sy['subst'], hand, sc):
-            if rates is None:
-                break
             v, d = _read(rates[x])
             # quantities of float32 dtype are multiplied in float32 by numpy (24-bit mantissa): not a conversion error
             f32 = any(q.get('mt') == 'float32' for q in list(conf['ks']) + list(conf['c0'].values()))
@@ -1574,7 +1561,9 @@ class C10(Property):
             for s, w, sc in zip(c['subst'], hand, unit_sc):
                 if s in res['rates']:
                     v, d = _read(res['rates'][s])
-                    if d != _dadd(CONC, TIME, -1) or not _close(v, w, sc * conv):
+                    # float32 quantities are multiplied in float32 by numpy (24-bit mantissa): not a conversion error
+                    f32 = any(q.get('mt') == 'float32' for q in list(a['ks']) + list(a['c0'].values()))
+                    if d != _dadd(CONC, TIME, -1) or not _close(v, w, sc * conv, rtol=1e-5 if f32 else RTOL):
                         return 'validate: rate of %s = %r %s, by hand %r mol m-3 s-1' % (s, v, d, float(w))
             return self._oracle_unit_aware_solve(c, a, extra, hand, [sc * conv for sc in unit_sc])
         return None
@@ -1610,17 +1599,6 @@ class C10(Property):
             if abs((y1 - y0) - float(w) * t_si) > 0.05 * sc * t_si + 1e-9 * abs(y0):
                 return ('unit_aware_solve over %r s: [%s] changed by %r mol m-3, hand-computed rate x t = %r'
                         % (t_si, s, y1 - y0, float(w) * t_si))
-        return None
-
-    def _listed(self, key):
-        from lib.framework import load_known
-        if not hasattr(self, '_known'):
-            self._known = load_known()[0]
-        return (self.pid, key) in self._known
-
-    def known_key(self, c, failure):
-        if isinstance(failure, str) and failure.startswith('[rates in-place add]'):
-            return RATES_INT_KEY
         return None
 
     def nontrivial(self, c):
